@@ -275,7 +275,9 @@ def type_(draw, ctx, depth):
                         if mt.kind != "REF" or True:
                             ok, dv = _default_for(draw, None, rt, ctx)
                             if ok:
+                                from .model import render_value
                                 m.has_default, m.default = True, dv
+                                m.default_text = render_value(rt, dv)
                 mem.append(m)
             t = T(k, members=mem)
             if cfg.extensions and draw(st.integers(0, 2)) == 0:
